@@ -16,8 +16,7 @@ pub enum SearchItem { Entry(StructureTag), Referral(StructureTag), Done(LdapResu
 pub struct ResultEntry(pub StructureTag, pub Vec<Control>);
 pub enum LdapError { EndOfStream, Timeout, IdScrubSend, OpSend, ResultRecv, FilterParsing, Other(u8) }
 pub type Result<T> = core::result::Result<T, LdapError>;
-#[derive(PartialEq, Eq, Clone, Copy, Structural)]
-pub enum StreamState { Fresh, Active, Done, Closed, Error }
+//@item file=src/search.rs kind=enum name=StreamState derive="PartialEq, Eq, Clone, Copy, Structural"
 #[derive(Clone, Copy)]
 pub struct Duration { pub d: u64 }
 pub struct Scope { pub s: u8 }
